@@ -400,6 +400,7 @@ def judge(c, orig_text, model, touched, orig_names):
     if sorted(set(a.names) - dummy) != sorted(set(b.names) - dummy):
         mm = denote.Mismatch(f"[reread] parameter names {sorted(a.names)} vs {sorted(b.names)}")
         mm.pos_equal = _positionally_equal(model, re_model)
+        mm.theta_names = (_theta_names(model), _theta_names(re_model))
         raise mm
     rvp_a = set(model.random_variables.parameter_names)
     for p in a:
@@ -472,6 +473,37 @@ def judge(c, orig_text, model, touched, orig_names):
         c.hit("rv_record_text")
         if [r.strip() for r in old_recs] != [r.strip() for r in new_recs]:
             raise denote.Mismatch(f"[spelling] untouched ${kind} records changed: {old_recs} -> {new_recs}", q=("rvtext", kind))
+    return True
+
+
+def _theta_names(m):
+    rvp = set(m.random_variables.parameter_names)
+    return [p.name for p in m.parameters if p.name not in rvp and "DUMMY" not in p.name]
+
+
+_DEFAULT_NAME = re.compile(r"^(THETA|OMEGA|SIGMA|ETA|EPS)_\d+(_\d+)?$|^(THETA|OMEGA|SIGMA|ETA|EPS)\(\d+(,\d+)?\)$")
+
+
+def _theta_name_shift_explained(mm):
+    """The listed mechanism moves names only in one way: a positional default name is renumbered, or the name comment
+    of a REMOVED theta stays behind and labels a theta that FOLLOWED it in the original records.  A surviving theta that
+    re-reads under the name of a theta removed *after* it (or under the name of another surviving theta) is something
+    else."""
+    names = getattr(mm, "theta_names", None)
+    orig = getattr(mm, "orig_names", [])
+    if not names:
+        return True
+    a, b = names
+    if len(a) != len(b):
+        return True  # not the positional signature anyway
+    pos = {n: i for i, n in enumerate(orig)}
+    removed = {n for n in orig if n not in set(a)}
+    for x, y in zip(a, b):
+        if x == y or _DEFAULT_NAME.match(x) or _DEFAULT_NAME.match(y):
+            continue
+        if y in removed and pos.get(y, -1) < pos.get(x, 10**9):
+            continue
+        return False
     return True
 
 
@@ -571,6 +603,8 @@ def classify(mm, orig_text, applied, model, replay=None):
     if getattr(mm, "eps_names_only", False):
         return "C04/epsilon-names-not-written"
     if "[reread]" in what and getattr(mm, "pos_equal", False) and ("parameter names" in what or "random variables" in what):
+        if not _theta_name_shift_explained(mm):
+            return None
         return "C04/default-names-shift-after-removal"
     thetas_txt = "\n".join(c for n, c in R.split_records(orig_text) if n == "THETA")
     multi = bool(re.search(r"\)\s*x\s*\d", thetas_txt)) or any(
